@@ -1,0 +1,54 @@
+//go:build verif
+
+package stage
+
+import (
+	"context"
+
+	"github.com/lindb/lindb/internal/concurrent"
+)
+
+// VerifStage is a stage over the real baseStage whose plan tree and next stages are supplied by a
+// verification harness (only compiled with -tags verif).
+type VerifStage struct {
+	baseStage
+	ID         string
+	PlanFn     func() PlanNode
+	NextFn     func() []Stage
+	CompleteFn func()
+}
+
+// NewVerifStage creates a VerifStage; a nil pool/ctx makes it a synchronous stage.
+func NewVerifStage(ctx context.Context, pool concurrent.Pool, id string) *VerifStage {
+	return &VerifStage{
+		baseStage: baseStage{ctx: ctx, stageType: Unknown, execPool: pool},
+		ID:        id,
+	}
+}
+
+// Plan returns the harness supplied plan tree.
+func (s *VerifStage) Plan() PlanNode {
+	if s.PlanFn == nil {
+		return nil
+	}
+	return s.PlanFn()
+}
+
+// NextStages returns the harness supplied next stages.
+func (s *VerifStage) NextStages() []Stage {
+	if s.NextFn == nil {
+		return nil
+	}
+	return s.NextFn()
+}
+
+// Identifier returns the id given by the harness.
+func (s *VerifStage) Identifier() string { return s.ID }
+
+// Complete notifies the harness, then behaves like baseStage.
+func (s *VerifStage) Complete() {
+	if s.CompleteFn != nil {
+		s.CompleteFn()
+	}
+	s.baseStage.Complete()
+}
